@@ -39,6 +39,9 @@ ASSUMPTIONS = [
     'the debugger',
     'step / next / nexti may also stop at an active user breakpoint (the '
     'property is silent about that): both outcomes are admitted',
+    'a drawn `continue` that is not the last command and finds no active '
+    'breakpoint is issued as `next` (it would only end the program early; '
+    'the run to the end after every history covers it)',
 ]
 COMMANDS = ('step', 'next', 'stepi', 'nexti', 'continue', 'break', 'delbr')
 
@@ -304,6 +307,14 @@ def drive(module, script, cmds, model, cfg):
                     continue
                 k = ticks[0]
                 finished = k >= model.T
+                if cmd == 'continue' and not bps and not finished and \
+                        info['cmds'] < len(cmds):
+                    # a continue without any breakpoint would just finish the
+                    # program and turn the rest of the history into no-ops
+                    # (the final run to the end covers that case): take a
+                    # `next` instead
+                    cmd = 'next'
+                    info['remapped'] = info.get('remapped', 0) + 1
                 want = model.expected(cmd, k, set(bps))
                 if not finished and cmd in ('step', 'next') and \
                         model.depths[k] > 1:
